@@ -95,8 +95,12 @@ def names_in(text):
 
 def patterns(used, tier):
     cols = list(used) + UNUSED
+    if tier == "single":
+        cols = ["y", "x", "z", "w", "f", "g", "h", "u1", "u2", "k"]
     cells = [(r, c) for r in range(N) for c in cols]
     out = [[cell] for cell in cells]
+    if tier == "single":
+        return out
     small = [(r, c) for r in range(4 if tier == "quick" else N) for c in cols]
     out += [list(p) for p in itertools.combinations(small, 2)]
     for r in (1, 4):  # a whole row missing in every subset of the columns (sizes 3+)
@@ -106,8 +110,15 @@ def patterns(used, tier):
     return out
 
 
+HIST_A = ["y ~ np.log(z) + w", "y ~ addk(x, k=w)", "y ~ I(u1 + z)", "y ~ x + (np.log(w)|h)", "yc ~ np.exp(z)"]
+HIST_B = [0, 2, 4, 21, 12]  # indices into POOL
+
+
 def units(tier, seed):
     u = [[{"kind": "invalid"}]]
+    # the used-variable set of a formula must not depend on the formulas processed before it
+    for a in HIST_A:
+        u.append([{"kind": "patterns", "i": b, "tier": "single", "marker": "none", "after": a} for b in HIST_B])
     for i in range(len(POOL)):
         u.append([{"kind": "patterns", "i": i, "tier": tier, "marker": m} for m in (["none"] if tier == "quick" else ["none", "nan"])])
     return u
@@ -138,6 +149,8 @@ def check_patterns(case, acc):
 
     f, used, pointwise = POOL[case["i"]]
     problems = {}
+    if case.get("after"):
+        build(case["after"], clean())  # an earlier, unrelated design in the same process
     refcache = {}
     clean_df = clean()
     full = mats(build(f, clean_df))
@@ -224,7 +237,7 @@ def check_patterns(case, acc):
                 if not np.allclose(exp, b2, rtol=1e-12, atol=1e-12, equal_nan=True):
                     bad = np.argwhere(~np.isclose(exp, b2, equal_nan=True))
                     problems.setdefault(("pass-nan-placement", nm), f"{tag}: {nm} under 'pass': entry {bad[0].tolist()} is {b2[tuple(bad[0])]}, expected {exp[tuple(bad[0])]} (NaN in exactly the columns derived from the missing variable)")
-    acc.bulk(max(len(pats) - 1, 0), "patterns")
+    acc.subcases(case, len(pats) - 1, True, "patterns")
     if problems:
         acc.case(case, "MISMATCH", sample=False)
         for (clause, sig), msg in problems.items():
